@@ -280,4 +280,102 @@ theorem pre_removeWorkspace (r : Repo) (p : Pre r) (ws : Nat) : Pre (removeWorks
   exact ⟨WF.congr (r := maybeAbandonWc r ws) rfl rfl p1.wf, p1.nodup, p1.range, p1.flag, p1.cov.1,
     fun e he => p1.cov.2 e (mem_mapErase _ _ _ he)⟩
 
+/-! ### `update_heads` -/
+
+theorem nodup_setUnion (s t : List Nat) (h : s.Nodup) : (setUnion s t).Nodup := by
+  unfold setUnion
+  induction t generalizing s with
+  | nil => exact h
+  | cons a t ih => exact ih _ (nodup_setInsert a s h)
+
+/-- number of ancestors: strictly decreases from a commit to each of its parents -/
+def rowMeasure (r : Repo) (k : Nat) : Nat :=
+  ((List.range r.size).filter fun a => (r.ancs.getD k []).contains a).length
+
+theorem rowMeasure_parent_lt (r : Repo) (w : WF r) (c : Nat) (hc : c < r.size) (p : Nat)
+    (hp : p ∈ r.parentsOf c) : rowMeasure r p < rowMeasure r c := by
+  unfold rowMeasure
+  apply length_filter_lt
+  · intro a _ ha
+    simp only [List.contains_iff_mem] at ha ⊢
+    exact (w.row_spec c hc a).mpr (Or.inr ⟨p, hp, ha⟩)
+  · refine ⟨c, by simpa using hc, by simpa using w.self_mem c hc, ?_⟩
+    cases h : (r.ancs.getD p []).contains c
+    · rfl
+    · simp only [List.contains_iff_mem] at h
+      have hpc : p ∈ r.ancs.getD c [] :=
+        (w.row_spec c hc p).mpr (Or.inr ⟨p, hp, w.self_mem p (w.par_range c p hp).1⟩)
+      exact absurd (w.row_antisymm c p h hpc).symm (w.par_range c p hp).2
+
+/-- head candidates assembled by `update_heads` before normalisation -/
+def updatedHeadIds (r : Repo) : List Nat :=
+  let old := r.keys.filter r.isVisible
+  let toAdd := (old.flatMap r.parentsOf).filter fun p => !old.contains p
+  setUnion (r.keys.foldl (fun hs k => setRemove k hs) r.heads) toAdd
+
+theorem updateHeads_eq (r : Repo) :
+    updateHeads r = normalizeHeads { r with heads := updatedHeadIds r, normalized := false } := rfl
+
+theorem mem_updatedHeadIds (r : Repo) (y : Nat) :
+    y ∈ updatedHeadIds r ↔ (y ∈ r.heads ∧ y ∉ r.keys) ∨
+      ((∃ k ∈ r.keys, r.isVisible k = true ∧ y ∈ r.parentsOf k) ∧ ¬ (y ∈ r.keys ∧ r.isVisible y = true)) := by
+  simp only [updatedHeadIds, mem_setUnion, mem_foldl_setRemove, List.mem_filter, List.mem_flatMap,
+    Bool.not_eq_eq_eq_not, Bool.not_true, List.contains_eq_mem, decide_eq_false_iff_not]
+  constructor
+  · rintro (h | ⟨⟨k, ⟨hk, hv⟩, hy⟩, hn⟩)
+    · exact Or.inl h
+    · exact Or.inr ⟨⟨k, hk, hv, hy⟩, hn⟩
+  · rintro (h | ⟨⟨k, hk, hv, hy⟩, hn⟩)
+    · exact Or.inl h
+    · exact Or.inr ⟨⟨k, ⟨hk, hv⟩, hy⟩, hn⟩
+
+/-- **`update_heads` keeps every visible commit that was not rewritten visible** -/
+theorem updateHeads_covers (r : Repo) (w : WF r) (hrange : ∀ h ∈ r.heads, h < r.size)
+    (x : Nat) (hx : r.isVisible x = true) (hxk : x ∉ r.keys) :
+    ∃ h ∈ updatedHeadIds r, r.isAnc x h = true := by
+  have key : ∀ n k, rowMeasure r k = n → r.isVisible k = true → k ∈ r.keys → r.isAnc x k = true →
+      ∃ h ∈ updatedHeadIds r, r.isAnc x h = true := by
+    intro n
+    induction n using Nat.strongRecOn with
+    | _ n ih =>
+      intro k hn hkv hkk hxk'
+      obtain ⟨h, hh, hkh⟩ := (isVisible_iff r k).mp hkv
+      have hksz : k < r.size := w.anc_range k h hkh (hrange h hh)
+      rcases (w.anc_parents k hksz x).mp hxk' with rfl | ⟨p, hp, hxp⟩
+      · exact absurd hkk hxk
+      · have hpv : r.isVisible p = true := (isVisible_iff r p).mpr ⟨h, hh,
+          w.po.trans _ _ _ ((w.anc_parents k hksz p).mpr (Or.inr ⟨p, hp, w.po.refl p⟩)) hkh⟩
+        by_cases hpk : p ∈ r.keys
+        · exact ih _ (by rw [← hn]; exact rowMeasure_parent_lt r w k hksz p hp) p rfl hpv hpk hxp
+        · exact ⟨p, (mem_updatedHeadIds r p).mpr (Or.inr ⟨⟨k, hkk, hkv, hp⟩, fun hc => hpk hc.1⟩), hxp⟩
+  obtain ⟨h, hh, hxh⟩ := (isVisible_iff r x).mp hx
+  by_cases hhk : h ∈ r.keys
+  · exact key _ h rfl ((isVisible_iff r h).mpr ⟨h, hh, w.po.refl h⟩) hhk hxh
+  · exact ⟨h, (mem_updatedHeadIds r h).mpr (Or.inl ⟨hh, hhk⟩), hxh⟩
+
+/-- no bookmark add-term and no working-copy commit is a rewritten/abandoned commit -/
+def RefsAvoidKeys (r : Repo) : Prop :=
+  (∀ e ∈ r.bookmarks, ∀ x ∈ addedIds e.2, x ∉ r.keys) ∧ (∀ e ∈ r.wcs, e.2 ∉ r.keys)
+
+/-- **`update_heads` re-establishes the invariant**, provided the reference-update phase left a
+well-formed index, visible references, and no reference on a rewritten commit. -/
+theorem pre_updateHeads (r : Repo) (w : WF r) (hnd : r.heads.Nodup) (hrange : ∀ h ∈ r.heads, h < r.size)
+    (hcov : Covered r) (havoid : RefsAvoidKeys r) : Pre (updateHeads r) ∧ (updateHeads r).normalized = true := by
+  rw [updateHeads_eq]
+  refine ⟨pre_normalizeHeads _ ⟨WF.congr (r := r) rfl rfl w, ?_, ?_, by simp, ?_⟩, normalized_normalizeHeads _⟩
+  · exact nodup_setUnion _ _ (nodup_foldl_setRemove _ _ hnd)
+  · intro y hy
+    rcases (mem_updatedHeadIds r y).mp hy with ⟨hy, _⟩ | ⟨⟨k, _, hkv, hyk⟩, _⟩
+    · exact hrange y hy
+    · exact (w.par_range k y hyk).1
+  · have hv : ∀ x, r.isVisible x = true → x ∉ r.keys →
+        ({ r with heads := updatedHeadIds r, normalized := false } : Repo).isVisible x = true := by
+      intro x hx hxk
+      obtain ⟨h, hh, hxh⟩ := updateHeads_covers r w hrange x hx hxk
+      exact (isVisible_iff _ x).mpr ⟨h, hh, hxh⟩
+    exact ⟨fun e he x hx => hv x (hcov.1 e he x hx) (havoid.1 e he x hx),
+      fun e he => hv _ (hcov.2 e he) (havoid.2 e he)⟩
+
+
+
 end JjModel.Heads
